@@ -356,7 +356,7 @@ static int api_exec (struct api *a, const char *line) {
         struct c2mir_macro_command *m = &mc[ops.macro_commands_num++];
         m->def_p = tok[0] == 'D';
         m->name = tok + 1;
-        m->def = "1";
+        m->def = m->def_p ? "1" : NULL; /* c2mir decides by def != NULL (process_macro_commands), the driver passes NULL for -U */
         if (m->def_p && (eq = strchr (tok, '=')) != NULL) {
           *eq = 0;
           m->def = eq + 1;
